@@ -142,10 +142,26 @@ def theorem_names(prop):
     return re.findall(r"^\s*Theorem\s+(\w+)", strip_comments(open(p).read()), re.M)
 
 
-def proof_gate(prop, timeout=1500):
+def coqchk_axioms(prop, timeout=1500):
+    """Independent re-check of Properties/<prop>.vo and everything it depends on with coqchk;
+    returns (ok, list of axioms it reports, raw tail)."""
+    rc, out = sh(["coqchk", "-o", "-silent", "-Q", "theories", "ClapModel", "ClapModel.Properties." + prop],
+                 cwd=COQ, timeout=timeout)
+    m = re.search(r"\* Axioms:(.*?)\n\s*\n\* Constants/Inductives relying on type-in-type:(.*?)\n\s*\n"
+                  r"\* Constants/Inductives relying on unsafe \(co\)fixpoints:(.*?)\n\s*\n"
+                  r"\* Inductives whose positivity is assumed:(.*?)\n", out, re.S)
+    if rc != 0 or not m:
+        return False, [], out[-600:]
+    ax = [a.strip() for a in m.group(1).strip().split("\n") if a.strip() and a.strip() != "<none>"]
+    unsafe = [g.strip() for g in (m.group(2), m.group(3), m.group(4)) if g.strip() != "<none>"]
+    return not unsafe, ax, out[-600:]
+
+
+def proof_gate(prop, timeout=1500, thorough=False):
     """(a) make of the property's target succeeds, (b) pinned statements still type-check
     against the theorems, (c) Print Assumptions is closed or allow-listed, (d) no forbidden
-    vernacular anywhere.  Returns a dict; 'failures' lists what no longer checks."""
+    vernacular anywhere; thorough tier: (e) coqchk re-checks the compiled files and reports only
+    allow-listed axioms.  Returns a dict; 'failures' lists what no longer checks."""
     res = {"obligations": 0, "discharged": 0, "failures": [], "axioms": {}, "theorems": []}
     names = theorem_names(prop)
     res["theorems"] = names
@@ -194,6 +210,17 @@ def proof_gate(prop, timeout=1500):
                 res["failures"].append("%s depends on non-allow-listed axioms %s" % (name, notok))
             else:
                 res["discharged"] += 1
+    if thorough and not res["failures"]:
+        res["obligations"] += 1
+        ok, ax, tail = coqchk_axioms(prop)
+        res["coqchk_axioms"] = ax
+        notok = [a for a in ax if a.split(".")[-1] not in ALLOWED_AXIOMS and a not in ALLOWED_AXIOMS]
+        if not ok:
+            res["failures"].append("coqchk did not accept Properties/%s.vo: %s" % (prop, tail.replace("\n", " ")[-300:]))
+        elif notok:
+            res["failures"].append("coqchk reports non-allow-listed axioms %s" % notok)
+        else:
+            res["discharged"] += 1
     return res
 
 
